@@ -25,8 +25,46 @@ def tick_budget(n):
 # ---------------------------------------------------------------------------
 # generation
 # ---------------------------------------------------------------------------
-def gen_case(st, prop):
+TAIL_CONTEXTS = ['', 'a', 'a ', '\\foo', '\\foo{a', '\\foo[a', '$x', '\\[x', '\\begin{e}x', '\\begin{e}x\\end{e}',
+                 '\\begin{itemize}\\item a', '\\begin{verbatim}x', '% c', 'a\n', '{', '\\begin{equation}x', '\\left(',
+                 '\\newcommand{\\x}{a', '\\section', '\\def\\a']
+
+
+def g_tail(st, index):
+    """Stratified end-of-input sweep: the run index (not the PRNG) walks
+    through every ordered pair of alphabet characters - and, beyond that, pairs
+    and triples over the whole alphabet - placed at the very end of the input
+    after a context that leaves some construct in flight.  Seeded sampling with
+    a guaranteed spread: after 961 tail runs every character pair has ended an
+    input once."""
+    k = index // TAIL_EVERY
+    chars = simreader.ALPHABET_CHARS
+    full = simreader.ALPHABET
+    nc = len(chars)
+    r = st['doc']
+    phase = k // (nc * nc)
+    if phase % 3 == 0:
+        syms = [chars[(k // nc) % nc], chars[k % nc]]
+    elif phase % 3 == 1:
+        syms = [full[(k // len(full)) % len(full)], full[k % len(full)]]
+    else:
+        syms = [chars[r.randrange(nc)], chars[(k // nc) % nc], chars[k % nc]]
+    ctx = TAIL_CONTEXTS[(k // 7 + phase) % len(TAIL_CONTEXTS)]
+    if r.random() < 0.25:
+        d = docgen.generate(r, size=r.randrange(2, 8))
+        ctx = d.text[:r.randrange(len(d.text) + 1)]
+    wire = ([ctx] if ctx else []) + syms
+    return {'mode': 'tail', 'profile': 'tail', 'plan': 'symbols', 'wire': wire, 'faults': [],
+            'form': _form(st), 'skip_envs': [], 'recover': False, 'depth': 0}
+
+
+TAIL_EVERY = 8
+
+
+def gen_case(st, prop, index=None):
     """Draw one case.  ``st``: rng.Streams of the run; ``prop``: 'C06'|'C07'."""
+    if index is not None and index % TAIL_EVERY == 3:
+        return g_tail(st, index)
     r = st['mode']
     if prop == 'C06':
         mode = weighted(r, [('doc', 50), ('alphabet', 22), ('deep', 10),
@@ -454,6 +492,8 @@ def execute(case, props=('C06', 'C07')):
             for t in (0, 1):
                 count('grid.%s.%s.t%d.%s' % (f['kind'], f['site'], t, outs[t].kind))
     buckets = {}
+    if case['mode'] == 'tail':
+        buckets['tail-endings-%d-symbols' % min(len(case['wire']), 3)] = digest(case['wire'][-3:] if len(case['wire']) > 2 else case['wire'][-2:])
     if case['mode'] == 'alphabet' and len(case['wire']) <= 4:
         buckets['alphabet-symbols-%d' % len(case['wire'])] = digest(case['wire'])
     verdicts = {}
@@ -556,7 +596,7 @@ def execute(case, props=('C06', 'C07')):
                 count('c07.c.side-condition-skip')
         verdicts['C07'] = v
 
-    nontrivial = bool(applied) or case['mode'] in ('alphabet', 'repeat')
+    nontrivial = bool(applied) or case['mode'] in ('alphabet', 'repeat', 'tail')
     return {'verdicts': verdicts, 'log': log, 'digest': digest(log), 'counters': counters,
             'ticks': ticks, 'key': digest([D, case.get('skip_envs', [])]),
             'nontrivial': nontrivial, 'D': D, 'extra_summary': extra_summary, 'buckets': buckets,
